@@ -20,13 +20,13 @@ def afterIsStop : After → Bool
 
 /-- pcs inside the working part of `stop()` (the flag is up) -/
 def inStop : Pc → Bool
-  | .stCond | .stRAcq | .stJoinDeb _ | .stJoinW _ => true
+  | .stCond | .stRAcq | .stJoinDeb _ | .stJoinW _ _ => true
   | .spAcq a | .spSleep _ _ a => afterIsStop a
   | _ => false
 
 /-- pcs of `stop()` after its `_stop_process` -/
 def pastStop : Pc → Bool
-  | .stJoinDeb _ | .stJoinW _ => true
+  | .stJoinDeb _ | .stJoinW _ _ => true
   | _ => false
 
 def pcOf (s : State) (j : Nat) : Option Pc := (s.threads[j]?).map (·.pc)
@@ -86,6 +86,7 @@ variable (s : State) (i : Nat) (t : Thread) (pc : Pc) (o : Obs)
 @[simp] theorem log_hist : (s.log o).hist = s.hist ++ [o] := rfl
 @[simp] theorem log_debTid : (s.log o).debTid = s.debTid := rfl
 @[simp] theorem log_watcher : (s.log o).watcher = s.watcher := rfl
+@[simp] theorem log_watchers : (s.log o).watchers = s.watchers := rfl
 @[simp] theorem log_cfg : (s.log o).cfg = s.cfg := rfl
 
 @[simp] theorem setThread_threads : (s.setThread i t).threads = s.threads.set i t := rfl
@@ -98,6 +99,7 @@ variable (s : State) (i : Nat) (t : Thread) (pc : Pc) (o : Obs)
 @[simp] theorem setThread_hist : (s.setThread i t).hist = s.hist := rfl
 @[simp] theorem setThread_debTid : (s.setThread i t).debTid = s.debTid := rfl
 @[simp] theorem setThread_watcher : (s.setThread i t).watcher = s.watcher := rfl
+@[simp] theorem setThread_watchers : (s.setThread i t).watchers = s.watchers := rfl
 @[simp] theorem setThread_cfg : (s.setThread i t).cfg = s.cfg := rfl
 
 @[simp] theorem setPc_process : (s.setPc i pc).process = s.process := by unfold State.setPc; split <;> rfl
@@ -109,6 +111,7 @@ variable (s : State) (i : Nat) (t : Thread) (pc : Pc) (o : Obs)
 @[simp] theorem setPc_hist : (s.setPc i pc).hist = s.hist := by unfold State.setPc; split <;> rfl
 @[simp] theorem setPc_debTid : (s.setPc i pc).debTid = s.debTid := by unfold State.setPc; split <;> rfl
 @[simp] theorem setPc_watcher : (s.setPc i pc).watcher = s.watcher := by unfold State.setPc; split <;> rfl
+@[simp] theorem setPc_watchers : (s.setPc i pc).watchers = s.watchers := by unfold State.setPc; split <;> rfl
 @[simp] theorem setPc_cfg : (s.setPc i pc).cfg = s.cfg := by unfold State.setPc; split <;> rfl
 @[simp] theorem setPc_length : (s.setPc i pc).threads.length = s.threads.length := by
   unfold State.setPc; split <;> simp
@@ -122,6 +125,7 @@ variable (s : State) (i : Nat) (t : Thread) (pc : Pc) (o : Obs)
 @[simp] theorem setStopFlag_hist : (s.setStopFlag i).hist = s.hist := by unfold State.setStopFlag; split <;> rfl
 @[simp] theorem setStopFlag_debTid : (s.setStopFlag i).debTid = s.debTid := by unfold State.setStopFlag; split <;> rfl
 @[simp] theorem setStopFlag_watcher : (s.setStopFlag i).watcher = s.watcher := by unfold State.setStopFlag; split <;> rfl
+@[simp] theorem setStopFlag_watchers : (s.setStopFlag i).watchers = s.watchers := by unfold State.setStopFlag; split <;> rfl
 @[simp] theorem setStopFlag_cfg : (s.setStopFlag i).cfg = s.cfg := by unfold State.setStopFlag; split <;> rfl
 @[simp] theorem setStopFlag_length : (s.setStopFlag i).threads.length = s.threads.length := by
   unfold State.setStopFlag; split <;> simp
